@@ -19,7 +19,7 @@ use parking_lot::RwLock;
 use serde::{Deserialize, Serialize};
 use std::{
     collections::{BTreeMap, HashMap},
-    net::{IpAddr, Ipv4Addr, SocketAddr},
+    net::{IpAddr, Ipv4Addr, Ipv6Addr, SocketAddr},
     sync::Arc,
     time::Duration,
 };
@@ -78,6 +78,11 @@ pub enum AddrSel {
     Node(u8),
     /// the original source IP with another port (a NAT re-mapping, or another process on that host)
     SameIpOtherPort(u8),
+    /// the original source in its IPv4-mapped IPv6 form (same host, same port, other representation)
+    MappedV6,
+    /// the other UDP socket the original sender's record advertises (dual-stack records only;
+    /// otherwise the original source)
+    OtherAdvertised,
 }
 
 /// Which part of the datagram a mutation hits (in the unmasked domain where it matters).
@@ -220,6 +225,10 @@ pub struct WireConfig {
     /// 2 another ip with the same port, 3 no address at all (then the record is acceptable)
     #[serde(default)]
     pub nat_kind: u8,
+    /// records additionally advertise an IPv6 UDP socket (2001:db8::1:<i>, port 9100+i) at which
+    /// nobody listens: dual-stack records of nodes that are reached over IPv4
+    #[serde(default)]
+    pub dual_records: bool,
     /// peers (index) whose APPLICATION answers record requests (FINDNODE [0]) with a validly signed
     /// record of another identity that carries no address (a byzantine application behind an
     /// honest transport)
@@ -339,9 +348,12 @@ pub fn attacker_key(j: u8) -> CombinedKey {
     keys::key(500 + (j % 3) as u32)
 }
 
-fn node_record(key: &CombinedKey, addr: Option<SocketAddr>, seq: u64) -> Enr {
+fn node_record(key: &CombinedKey, addr: Option<SocketAddr>, v6: Option<(Ipv6Addr, u16)>, seq: u64) -> Enr {
     let mut b = Enr::builder();
     b.seq(seq);
+    if let Some((ip, port)) = v6 {
+        b.ip6(ip).udp6(port);
+    }
     if let Some(SocketAddr::V4(a)) = addr {
         b.ip4(*a.ip()).udp4(a.port());
     }
@@ -394,8 +406,9 @@ impl World {
             } else {
                 Some(addr)
             };
-            let enr = node_record(&key, advertised, seq);
-            let older_enr = node_record(&key, advertised, seq - 1);
+            let v6 = if cfg.dual_records { Some((Ipv6Addr::new(0x2001, 0xdb8, 0, 0, 0, 0, 1, i as u16), 9100 + i as u16)) } else { None };
+            let enr = node_record(&key, advertised, v6, seq);
+            let older_enr = node_record(&key, advertised, v6, seq - 1);
             let id = enr.node_id().raw();
             let vh = spawn_handler(key_idx, &enr, addr, &cfg).await;
             nodes.push(Node { key_idx, key, enr, older_enr, id, addr, vh, held_wru: vec![], held_req: vec![], restarts: 0 });
